@@ -277,7 +277,7 @@ func genSwitch(repo string) (string, error) {
 	sort.SliceStable(errRows, func(i, j int) bool { return errRows[i].key < errRows[j].key })
 
 	var sb strings.Builder
-	sb.WriteString("From Coq Require Import String List.\nImport ListNotations.\nLocal Open Scope string_scope.\n")
+	sb.WriteString("From Coq Require Import String List NArith ZArith.\nImport ListNotations.\nLocal Open Scope string_scope.\n")
 	sb.WriteString("(* lib/j5reflect/value_go.go scalarReflectFromGo: the arms of the outer switch on schema.Type *)\n")
 	fmt.Fprintf(&sb, "Definition scalar_kinds : list string := %s.\n", coqStrList(kinds))
 	sb.WriteString("(* per kind (and integer format): the case types of the type switch on [value], in source order *)\n")
@@ -305,6 +305,94 @@ func genSwitch(repo string) (string, error) {
 		fmt.Fprintf(&sb, "(%s, %s)", gen.CoqString(r.key), coqBool(r.ret))
 	}
 	sb.WriteString("].\n")
+
+	// a json.Number for UINT64 is parsed with strconv.ParseUint inside an `if ... FORMAT_UINT64` test
+	parseUint := false
+	ast.Inspect(fd, func(n ast.Node) bool {
+		if ifs, ok := n.(*ast.IfStmt); ok && strings.Contains(exprString(fset, ifs.Cond), "FORMAT_UINT64") {
+			ast.Inspect(ifs.Body, func(x ast.Node) bool {
+				if ce, ok := x.(*ast.CallExpr); ok && exprString(fset, ce.Fun) == "strconv.ParseUint" && len(ce.Args) > 0 && strings.Contains(exprString(fset, ce.Args[0]), "numVal") {
+					parseUint = true
+				}
+				return true
+			})
+		}
+		return true
+	})
+	sb.WriteString("(* Integer arm: a json.Number for FORMAT_UINT64 is parsed with strconv.ParseUint *)\n")
+	fmt.Fprintf(&sb, "Definition uint64_number_parse_uint : bool := %s.\n", coqBool(parseUint))
+
+	// decimalFromString: exponent guard and its constant
+	dfn := findFunc(f, "", "decimalFromString")
+	if dfn == nil {
+		return "", fmt.Errorf("value_go.go: decimalFromString not found")
+	}
+	decGuard := false
+	ast.Inspect(dfn, func(n ast.Node) bool {
+		if ifs, ok := n.(*ast.IfStmt); ok && strings.Contains(exprString(fset, ifs.Cond), "maxDecimalExponent") {
+			for _, b := range ifs.Body.List {
+				if _, ok := b.(*ast.ReturnStmt); ok {
+					decGuard = true
+				}
+			}
+		}
+		return true
+	})
+	maxDec := "0"
+	for _, d := range f.Decls {
+		if gd, ok := d.(*ast.GenDecl); ok && gd.Tok == token.CONST {
+			for _, sp := range gd.Specs {
+				vs := sp.(*ast.ValueSpec)
+				for i, n := range vs.Names {
+					if n.Name == "maxDecimalExponent" && i < len(vs.Values) {
+						maxDec = exprString(fset, vs.Values[i])
+					}
+				}
+			}
+		}
+	}
+	sb.WriteString("(* decimalFromString refuses exponents beyond +-maxDecimalExponent before decimal.String() expands them *)\n")
+	fmt.Fprintf(&sb, "Definition decimal_exponent_guard : bool := %s.\n", coqBool(decGuard))
+	fmt.Fprintf(&sb, "Definition max_decimal_exponent : Z := %s%%Z.\n", maxDec)
+
+	// ---- root_schema.go OptionByName: an exact-name loop precedes strings.TrimPrefix
+	rfset, rf, err := gen.ParseFile(filepath.Join(repo, "lib/j5schema/root_schema.go"))
+	if err != nil {
+		return "", err
+	}
+	obn := findFunc(rf, "EnumSchema", "OptionByName")
+	if obn == nil {
+		return "", fmt.Errorf("root_schema.go: OptionByName not found")
+	}
+	exactFirst := false
+	trimSeen := false
+	for _, st := range obn.Body.List {
+		if containsCall(st, "TrimPrefix") {
+			trimSeen = true
+		}
+		if rs, ok := st.(*ast.RangeStmt); ok && !trimSeen {
+			ast.Inspect(rs.Body, func(x ast.Node) bool {
+				if be, ok := x.(*ast.BinaryExpr); ok && be.Op == token.EQL && strings.HasSuffix(exprString(rfset, be.X), ".name") && exprString(rfset, be.Y) == "name" {
+					exactFirst = true
+				}
+				return true
+			})
+		}
+	}
+	sb.WriteString("(* lib/j5schema/root_schema.go OptionByName: `opt.name == name` is tried before strings.TrimPrefix *)\n")
+	fmt.Fprintf(&sb, "Definition enum_exact_match_first : bool := %s.\n", coqBool(exactFirst && trimSeen))
+
+	// ---- date_j5t DateFromString validates against daysIn
+	_, dtf, err := gen.ParseFile(filepath.Join(repo, "j5types/date_j5t/date.go"))
+	if err != nil {
+		return "", err
+	}
+	dfs := findFunc(dtf, "", "DateFromString")
+	if dfs == nil {
+		return "", fmt.Errorf("date.go: DateFromString not found")
+	}
+	sb.WriteString("(* j5types/date_j5t/date.go DateFromString calls daysIn (calendar check) *)\n")
+	fmt.Fprintf(&sb, "Definition date_validates_calendar : bool := %s.\n", coqBool(containsCall(dfs, "daysIn")))
 
 	// ---- decoder.go: decodeValue arms, null handling per call site, oneof post-check
 	dfset, df, err := gen.ParseFile(filepath.Join(repo, "internal/codec/decoder.go"))
@@ -365,6 +453,61 @@ func genSwitch(repo string) (string, error) {
 		fmt.Fprintf(&sb, "(%s, %s)", gen.CoqString(name), gen.CoqString(how))
 	}
 	sb.WriteString("].\n")
+	// decodeValue: depth counter with the maxNestingDepth guard
+	depthGuard := false
+	for _, st := range dv.Body.List {
+		if ifs, ok := st.(*ast.IfStmt); ok && strings.Contains(exprString(dfset, ifs.Cond), "dec.depth > maxNestingDepth") {
+			for _, b := range ifs.Body.List {
+				if _, ok := b.(*ast.ReturnStmt); ok {
+					depthGuard = true
+				}
+			}
+		}
+	}
+	incr := false
+	ast.Inspect(dv, func(n ast.Node) bool {
+		if ids, ok := n.(*ast.IncDecStmt); ok && ids.Tok == token.INC && exprString(dfset, ids.X) == "dec.depth" {
+			incr = true
+		}
+		return true
+	})
+	maxDepth := "0"
+	for _, d := range df.Decls {
+		if gd, ok := d.(*ast.GenDecl); ok && gd.Tok == token.CONST {
+			for _, sp := range gd.Specs {
+				vs := sp.(*ast.ValueSpec)
+				for i, n := range vs.Names {
+					if n.Name == "maxNestingDepth" && i < len(vs.Values) {
+						maxDepth = exprString(dfset, vs.Values[i])
+					}
+				}
+			}
+		}
+	}
+	sb.WriteString("(* decodeValue increments dec.depth and returns an error beyond maxNestingDepth *)\n")
+	fmt.Fprintf(&sb, "Definition decode_value_depth_guard : bool := %s.\n", coqBool(depthGuard && incr))
+	fmt.Fprintf(&sb, "Definition max_nesting_depth : N := %s.\n", maxDepth)
+	// query.go: keys with an empty value slice are skipped before values[0]
+	qfset, qf, err := gen.ParseFile(filepath.Join(repo, "internal/codec/query.go"))
+	if err != nil {
+		return "", err
+	}
+	dq := findFunc(qf, "Codec", "decodeQuery")
+	if dq == nil {
+		return "", fmt.Errorf("query.go: decodeQuery not found")
+	}
+	emptyGuard := false
+	ast.Inspect(dq, func(n ast.Node) bool {
+		if rs, ok := n.(*ast.RangeStmt); ok && len(rs.Body.List) > 0 {
+			if ifs, ok := rs.Body.List[0].(*ast.IfStmt); ok && exprString(qfset, ifs.Cond) == "len(values) == 0" {
+				emptyGuard = true
+			}
+		}
+		return true
+	})
+	sb.WriteString("(* internal/codec/query.go decodeQuery: the loop body starts with `if len(values) == 0 { continue }` *)\n")
+	fmt.Fprintf(&sb, "Definition query_empty_values_skipped : bool := %s.\n", coqBool(emptyGuard))
+
 	// oneof post-check: the `if len(foundKeys) == 0` block ends with a return
 	oi := findFunc(df, "decoder", "decodeOneofInner")
 	if oi == nil {
